@@ -674,7 +674,7 @@ def _d8(chk, fb):
             nm = c["callee"]["name"]
             if nm == "f" and "obj" in c and len(f.args(c)) == 1:
                 places.append(c)
-            elif nm == "setParameters" and "obj" in c and ("unction" in render(f.obj(c))):
+            elif nm == "setParameters" and "obj" in c and ("unction" in render(f.obj(c), local_inits(f)) or "Function" in (strip(f.obj(c)).get("ty") or "") or "Function" in (c["callee"].get("cls") or "")):
                 places.append(c)
             elif nm in ("bracketMinimum", "inwardBracketMinimum", "lineMinimization", "lineSearch"):
                 places.append(c)
